@@ -408,7 +408,7 @@ func RandomLayout(r *rand.Rand, revs int) Layout {
 	for i := 0; i < revs; i++ {
 		l.XRef = append(l.XRef, []string{"table", "stream"}[r.Intn(2)])
 	}
-	l.FontNameRot, l.FontsDirect, l.InlineImages = r.Intn(3) == 0, r.Intn(3) == 0, r.Intn(3) == 0
+	l.FontNameRot, l.FontsDirect, l.InlineImages, l.TmScale = r.Intn(3) == 0, r.Intn(3) == 0, r.Intn(3) == 0, r.Intn(4) == 0
 	return l
 }
 
